@@ -1126,7 +1126,7 @@ void SDMXeval_rad_iter(FPtr_eval_sdmx_rad feval, FPtr_exp_sdmx fexp, double fac,
                 for (i = 0; i < ncomp; i++) {
                     for (k = 0; k < rf_loc[bas_id + 1] - rf_loc[bas_id]; k++) {
                         _dset0(vbas + (i * nalpha * nao + sh + k) * ngrids,
-                               ngrids, bgrids, nc);
+                               ngrids, bgrids, 1);
                     }
                 }
             }
